@@ -32,7 +32,7 @@ func vLoadDirs() {
 // vLoad: up to three files of different kinds with arbitrary sizes and access
 // times; optionally a second file for the same key, a lost+found directory
 // and a .DS_Store file.
-func vLoad(nFiles int, extras bool, dup bool) {
+func vLoad(nFiles int, extras bool, dup int) {
 	vLoadDirs()
 	var files []*vLoadFile
 	add := func(path, key string, logical int64, legacy bool, random string) {
@@ -59,15 +59,24 @@ func vLoad(nFiles int, extras bool, dup bool) {
 		func() { add("cas.v2/bb/"+hB+"-12345-444555666", "cas/"+hB, 12345, false, "444555666") },
 		func() { add("cas.v2/cc/"+hC+"-777888999.v1", "cas/"+hC, -1, true, "777888999") },
 	}
-	n := 1 + vsym.Choose("files", nFiles)
+	n := nFiles
+	if dup != 2 {
+		n = 1 + vsym.Choose("files", nFiles)
+	}
 	for i := 0; i < n; i++ {
 		all[i]()
 	}
 	dupOf := -1
-	if dup {
+	switch dup {
+	case 1:
 		// a second file for the key of file 0 (left behind by an interrupted overwrite)
 		add("ac.v2/aa/"+hA+"-999888777", "ac/"+hA, -1, false, "999888777")
 		dupOf = 0
+	case 2:
+		// a second compressed file for the CAS key of file 1: logical size
+		// (from the name) and file length differ
+		add("cas.v2/bb/"+hB+"-12345-222333444", "cas/"+hB, 12345, false, "222333444")
+		dupOf = 1
 	}
 	if extras {
 		switch vsym.Choose("extra", 3) {
@@ -182,7 +191,8 @@ func vLoad(nFiles int, extras bool, dup bool) {
 	}
 }
 
-func VerifLoad2()      { vLoad(2, false, false) }
-func VerifLoad3()      { vLoad(3, false, false) }
-func VerifLoadExtras() { vLoad(1, true, false) }
-func VerifLoadDup()    { vLoad(2, false, true) }
+func VerifLoad2()      { vLoad(2, false, 0) }
+func VerifLoad3()      { vLoad(3, false, 0) }
+func VerifLoadExtras() { vLoad(1, true, 0) }
+func VerifLoadDup()    { vLoad(2, false, 1) }
+func VerifLoadDupCas() { vLoad(2, false, 2) }
